@@ -243,6 +243,14 @@ func (c *Ctx) dvChunkSizes() (writers, readers []dvChunkSite) {
 				scan = append(scan, sc)
 			}
 		}
+		// a small "load unless already loaded" wrapper: the chunk number is computed by its callers
+		if len(fn.Blocks) <= 4 {
+			for _, up := range c.fnsCalling(fnName(fn)) {
+				if fnName(up) != "(*docValueReader).iterateAllDocValues" {
+					scan = append(scan, up)
+				}
+			}
+		}
 	}
 	for _, fn := range scan {
 		if seen[fn] {
@@ -1078,9 +1086,23 @@ func fieldCacheObject(c *Ctx, r *Report, key string, user, h *ssa.Function) {
 			asked = p
 		}
 	}
+	// the asked field: a string parameter, or Field() of a term parameter (every call of
+	// Field() on that term denotes it)
+	isAsked := func(v ssa.Value) bool { return asked != nil && v == ssa.Value(asked) }
 	if asked == nil || call.Call.Args[1] != ssa.Value(asked) {
-		r.bad(key, fnName(h), c.pos(call.Pos()), "the dictionary is loaded for a different field than the one asked for")
-		return
+		if fc, ok := call.Call.Args[1].(*ssa.Call); ok && fc.Call.IsInvoke() && fc.Call.Method.Name() == "Field" {
+			if prm, isPrm := fc.Call.Value.(*ssa.Parameter); isPrm {
+				asked = prm
+				isAsked = func(v ssa.Value) bool {
+					c2, ok := v.(*ssa.Call)
+					return ok && c2.Call.IsInvoke() && c2.Call.Method.Name() == "Field" && c2.Call.Value == ssa.Value(prm)
+				}
+			}
+		}
+		if !isAsked(call.Call.Args[1]) {
+			r.bad(key, fnName(h), c.pos(call.Pos()), "the dictionary is loaded for a different field than the one asked for")
+			return
+		}
 	}
 	// stores to the object's fields
 	var keyField, dictField string
@@ -1100,7 +1122,7 @@ func fieldCacheObject(c *Ctx, r *Report, key string, user, h *ssa.Function) {
 				continue
 			}
 			stores[f.Name()] = append(stores[f.Name()], st)
-			if st.Val == ssa.Value(asked) {
+			if isAsked(st.Val) {
 				keyField = f.Name()
 			}
 			if ex, ok := st.Val.(*ssa.Extract); ok && ex.Tuple == ssa.Value(call) && ex.Index == 0 {
@@ -1144,7 +1166,7 @@ func fieldCacheObject(c *Ctx, r *Report, key string, user, h *ssa.Function) {
 				_, f := fieldAddrInfo(fa)
 				return f != nil && f.Name() == keyField
 			}
-			if (bo.X == ssa.Value(asked) && isKey(bo.Y)) || (bo.Y == ssa.Value(asked) && isKey(bo.X)) {
+			if (isAsked(bo.X) && isKey(bo.Y)) || (isAsked(bo.Y) && isKey(bo.X)) {
 				eqFrom = blk
 				eqTo = blk.Succs[0]
 				if bo.Op == token.NEQ {
@@ -1174,6 +1196,51 @@ func fieldCacheObject(c *Ctx, r *Report, key string, user, h *ssa.Function) {
 						work = append(work, sc)
 					}
 				}
+			}
+		}
+		if bypass {
+			// the comparison may sit in a predicate method (matches(field)): boolean execution
+			// with the atom "the remembered field equals a string" - a return that does not pass
+			// the reload must be unreachable when the atom is false
+			atoms := func(v ssa.Value) (int, bool, bool) {
+				bo, ok := v.(*ssa.BinOp)
+				if !ok || (bo.Op != token.EQL && bo.Op != token.NEQ) {
+					return 0, false, false
+				}
+				isKeyLoad := func(x ssa.Value) bool {
+					ld, ok := x.(*ssa.UnOp)
+					if !ok || ld.Op != token.MUL {
+						return false
+					}
+					fa, ok := ld.X.(*ssa.FieldAddr)
+					if !ok {
+						return false
+					}
+					_, f := fieldAddrInfo(fa)
+					return f != nil && f.Name() == keyField
+				}
+				if (isKeyLoad(bo.X) || isKeyLoad(bo.Y)) && bo.X.Type().String() == "string" {
+					return 0, bo.Op == token.NEQ, true
+				}
+				return 0, false, false
+			}
+			be := &boolExec{fn: h, atoms: atoms, n: 1, inline: true}
+			bypass = false
+			sawAtom := false
+			for _, blk := range h.Blocks {
+				if _, isRet := blk.Instrs[len(blk.Instrs)-1].(*ssa.Return); !isRet || blk == b || b.Dominates(blk) {
+					continue
+				}
+				reach := be.reachableUnder(blk)
+				if reach[0] {
+					bypass = true
+				}
+				if reach[1] && !reach[0] {
+					sawAtom = true
+				}
+			}
+			if !sawAtom {
+				bypass = true
 			}
 		}
 		if bypass {
